@@ -337,7 +337,7 @@ def check_recovery_verifies(ctx, facts, rid="C07.3"):
                             "crash between the two, or a rolled-back batch) is counted into the block" % (b.local_name(tgt), ", ".join(bad)))
             else:
                 ctx.ok(rid, F, "`%s` advances only by the size of a checksum-verified read" % b.local_name(tgt), b.relfile, site.line)
-    ctx.floor(rid, "advances of the recovery entry scan", n, 2)
+    ctx.floor(rid, "advances of the recovery entry scan", n, 1)
 
 
 def check_open_errors(ctx, facts):
@@ -368,7 +368,7 @@ def check_open_errors(ctx, facts):
             if st["place"]["l"] == 0 and not st["place"]["p"] and st["rv"]["k"] == "agg" and st["rv"].get("variant") == "Err":
                 n += 1
                 ctx.violate("C07.2", fn, "open-returns-err", b.relfile, st["line"], "the open path constructs an error itself: recovery must tolerate any file contents")
-    ctx.floor("C07.2", "error exits on the open path", n, 4)
+    ctx.floor("C07.2", "error exits on the open path", n, 1)
 
 
 def run(ctx):
